@@ -353,6 +353,16 @@ func c12URLs(c *Ctx) {
 			// query shapes real links have: HTML-escaped separators, ';', bad escapes, '+', repeated and empty pairs
 			text = "otpauth://totp/" + url.PathEscape(iss+":"+acc) + "?secret=ABCD" + gen.Pick(rng, []string{"&amp;digits=8", "&amp;amp;period=60", ";digits=8", "&digits=%zz", "&%zz=1", "&digits=6&digits=8", "&&&", "&=", "&issuer=a+b%20c", "&secret=EFGH", "&amp;", "&algorithm=sha256;period=15", "%26amp%3Bdigits=8"}) + gen.Pick(rng, []string{"", "&period=30", "&amp;issuer=x"})
 		}
+		if i%7 == 5 {
+			// delimiters in unusual places: raw '#', '?', '&', ';', '%XX' injected at random positions of a well-formed text
+			b := []byte("otpauth://totp/Acme:bob?secret=ABCD&issuer=Acme&digits=8")
+			for n := 1 + rng.Intn(3); n > 0; n-- {
+				pos := 15 + rng.Intn(len(b)-15)
+				ins := gen.Pick(rng, []string{"#", "?", "&", ";", "%23", "%3F", "#1?", "?#", "//", "@", "+", "%"})
+				b = append(b[:pos], append([]byte(ins), b[pos:]...)...)
+			}
+			text = string(b)
+		}
 		u, err := url.Parse(text)
 		if err != nil {
 			continue
